@@ -27,6 +27,12 @@ def validate(module, cfg, traces, on_reject, run=None, name=None, max_rejects=60
                 os.unlink(path)
             if run is not None:
                 run.add_tlc(name or f"{module}/{cfg}", res, {"traces": len(batch)})
+                # advisory clauses: the implementation differs from the specification's exact model in a way the
+                # property itself does not forbid; counted in the evidence, never a violation
+                for t, v in res.printed:
+                    if t == "ADVISORY":
+                        adv = run.cov.setdefault("advisory_drift", {})
+                        adv[v["clause"]] = adv.get(v["clause"], 0) + 1
             if res.violation is None and not res.postcondition_failed:
                 accepted += len(batch)
                 break
